@@ -34,6 +34,9 @@ pub struct Config {
     /// R-mirror: every assignment `X = E` to one of these variables is followed by a ghost copy of the new
     /// value into the named ghost out-parameter: `{ X = E; proof { *G.borrow_mut() = X; } }`
     pub mirror: Vec<(String, String)>,
+    /// R-alloc: `Vec::with_capacity(E)` -> `vx_with_capacity(E)` (prelude: `requires` the request to be covered
+    /// by the caller's pre-flight allocation check): the capacity request becomes a proof obligation
+    pub ralloc: bool,
     pub state_methods: Vec<String>,
     pub state_calls: Vec<String>,
     pub state_arg: String,
@@ -64,6 +67,7 @@ impl Config {
             rmatch_map: v["rmatch_map"].as_bool().unwrap_or(false),
             drop_stmts: strs(&v["drop_stmts"]).iter().map(|s| norm(s)).collect(),
             rfor: v["rfor"].as_bool().unwrap_or(false),
+            ralloc: v["ralloc"].as_bool().unwrap_or(false),
             mirror: v["mirror"]
                 .as_object()
                 .map(|m| m.iter().map(|(k, t)| (k.clone(), t.as_str().unwrap_or("").to_string())).collect())
@@ -860,6 +864,14 @@ impl<'a, 'ast> Visit<'ast> for Rewriter<'a> {
     }
 
     fn visit_expr_call(&mut self, c: &'ast ExprCall) {
+        if self.cfg.ralloc {
+            let f = norm(&self.sf.slice(self.r(c.func.span())).to_string());
+            if f == "Vec::with_capacity" {
+                let fr = self.r(c.func.span());
+                self.edits.replace(fr, vec![Piece::Lit("vx_with_capacity".into())], "R-alloc");
+                self.note("R-alloc", c.span());
+            }
+        }
         if !self.cfg.state_arg.is_empty() {
             let f = norm(&self.sf.slice(self.r(c.func.span())).to_string());
             if self.cfg.state_calls.iter().any(|p| f == *p || f.ends_with(&format!("::{}", p))) {
